@@ -336,7 +336,15 @@ pub fn exec(input: &Value) -> Value {
                             let k = op["k"].as_u64().unwrap() as usize;
                             match iters.get_mut(k) {
                                 None => json!({"no_such_iter": true}),
-                                Some(it) => json!({"n": it.by_ref().count()}),
+                                Some(it) => {
+                                    // BY VALUE (`by_ref()` would go through `impl Iterator for &mut I`, which only forwards
+                                    // next / nth / size_hint: an override of `count` would never run); the slot is refilled
+                                    // with an iterator in the state the consumed one would be in: at the end
+                                    let taken = std::mem::replace(it, de.iter());
+                                    let n = taken.count();
+                                    while it.next().is_some() {}
+                                    json!({"n": n})
+                                }
                             }
                         }
                         "iter_hint" => {
@@ -353,10 +361,15 @@ pub fn exec(input: &Value) -> Value {
                             let k = op["k"].as_u64().unwrap() as usize;
                             match iters.get_mut(k) {
                                 None => json!({"no_such_iter": true}),
-                                Some(it) => match it.by_ref().last() {
-                                    None => json!({"item": null}),
-                                    Some(item) => json!({"item": read_item(item)}),
-                                },
+                                Some(it) => {
+                                    let taken = std::mem::replace(it, de.iter()); // by value, see iter_count
+                                    let last = taken.last();
+                                    while it.next().is_some() {}
+                                    match last {
+                                        None => json!({"item": null}),
+                                        Some(item) => json!({"item": read_item(item)}),
+                                    }
+                                }
                             }
                         }
                         "collect_rev" => {
